@@ -75,7 +75,8 @@ REQUIRED = [("faults_issued_by_the_simulator", "requests_for_known_failing_input
             ("multi_worker_processes",), ("distinct_entropy_seeds",), ("distinct_layouts",),
             ("environment_dimensions_exercised", "processes_under_a_host_executable_name"), ("environment_dimensions_exercised", "processes_with_a_manifest_on_disk"),
             ("environment_dimensions_exercised", "processes_with_cargo_variables"), ("environment_dimensions_exercised", "processes_pinned_to_a_cpu_subset"),
-            ("environment_dimensions_exercised", "processes_serving_1000_or_more_requests"), ("environment_dimensions_exercised", "processes_on_a_terminal")]
+            ("environment_dimensions_exercised", "processes_serving_1000_or_more_requests"), ("environment_dimensions_exercised", "processes_on_a_terminal"),
+            ("environment_dimensions_exercised", "processes_with_resource_limits"), ("environment_dimensions_exercised", "processes_with_lock_toolchain_or_cargo_config_files")]
 
 
 def do_check(tier, seed, t0):
